@@ -31,7 +31,7 @@ def _cases(draw):
     gens = []
     for i in range(n):
         kind = draw(st.sampled_from(["str", "tuple", "multi"]))
-        words = draw(st.lists(st.sampled_from(["alpha", "beta", "x=1", "# c", "line two", "", "z", "a\tb\t", "text:  "]), min_size=1, max_size=4))
+        words = draw(st.lists(st.sampled_from(["alpha", "beta", "x=1", "# c", "line two", "", "z", "a\tb\t", "text:  ", "dos line\r", "banner\r"]), min_size=1, max_size=4))
         gens.append({"path": draw(st.sampled_from(PATHS)), "prio": prios[i], "kind": kind, "words": words,
                      "reload": draw(st.sampled_from([None, "systemctl reload a", "true", ""])), "safe": draw(st.booleans())})
     old = {}
@@ -156,8 +156,10 @@ def check(case):
     det = {"expected_new_files": exp}
     n = len(gens)
     orders = list(itertools.permutations(range(n))) if n <= 5 else [tuple(range(n))]
-    for order in orders:
-        res = run_file_generators([gens[i] for i in order], device)
+    for oi, order in enumerate(orders):
+        # the production caller hands over a one-shot iterator (DeviceGenerators.file_gens): every third order does the same
+        glist = [gens[i] for i in order]
+        res = run_file_generators(iter(glist) if oi % 3 == 1 else glist, device)
         got = res.new_files(safe)
         if got != exp:
             raise Violation("winner-depends-on-order" if any(run_file_generators([gens[i] for i in o], device).new_files(safe) == exp for o in orders[:6])
